@@ -153,6 +153,14 @@ def novel_blocks(tier, seed):
     out.append(('FUS/R7/A3>B1', fusion_cases('R7', 'ENST0A3', 'ENST0B1', st if not q else 7, CFG_NONE), dict(deviations=1)))
     out.append(('FUS/R7/intronic', fusion_cases('R7', 'ENST0A1', 'ENST0B1', 3 if q else 1, CFG_NONE, intronic=True), dict(deviations=1)))
     out.append(('FUS/R7/intronic-rev', fusion_cases('R7', 'ENST0B1', 'ENST0A1', 3 if q else 1, CFG_NONE, intronic=True), dict(deviations=1)))
+    # fusion + one small variant on the donor or the accepter transcript (main call and fusion call of the same
+    # transcript share labels: entry uniqueness, attribution, junction-spanning variant peptides)
+    ref7 = panel.get('R7')
+    fz = fusion_cases('R7', 'ENST0A1', 'ENST0B1', 17 if q else 7, CFG_NONE)
+    sm = [E.small_alphabet(ref7, 'ENST0A1', p, reduced=True)[0] for p in range(8, ref7.tx_len('ENST0A1') - 3, 11 if q else 5)]
+    sm += [E.small_alphabet(ref7, 'ENST0B1', p, reduced=True)[0] for p in range(8, ref7.tx_len('ENST0B1') - 3, 17 if q else 7)]
+    out.append(('FUS/R7/A1>B1/+snv', [E.Case('R7', fusions=f.fusions, small=(v,), cfg=CFG_NONE) for f in fz for v in sm],
+                dict(deviations=2)))
     for r, tx in (('R8', 'ENST08'), ('R7', 'ENST0A1'), ('R7', 'ENST0B1')):
         out.append((f'CIRC/{r}/{tx}', circ_cases(r, tx, CFG_NONE), dict(deviations=1)))
     out.append(('CIRC/R8/ENST08/snv', circ_cases('R8', 'ENST08', CFG_NONE, with_snv=True), dict(deviations=2)))
